@@ -11,33 +11,79 @@
 EXTENDS Conn, Json
 CONSTANTS TraceFile,
           Diagnose    \* TRUE: no GiveUp, print the position reached (used to locate the rejected event)
-VARIABLES l, conn, cfg
+VARIABLES l, conn, cfg,
+          store,   \* model keyspaces: database id -> RedisModel keyspace (scenarios with model = TRUE)
+          conf     \* parameters stored with CONFIG SET
 
+RM == INSTANCE RedisModel
 Trace == ndJsonDeserialize(TraceFile)
 MaxConn == 8
 Fresh == [c \in 0..(MaxConn - 1) |-> Idle]
-Cfg0 == [requirepass |-> FALSE, pw |-> <<>>, authdouble |-> FALSE, custom |-> {}, tracer |-> FALSE, rec |-> TRUE]
+Cfg0 == [requirepass |-> FALSE, pw |-> <<>>, authdouble |-> FALSE, custom |-> {}, tracer |-> FALSE, rec |-> TRUE, model |-> FALSE]
+NoStore == [d \in {} |-> 0]
+KS(db) == IF db \in DOMAIN store THEN store[db] ELSE RM!EmptyKS
+PutF(f, k, v) == [x \in DOMAIN f \cup {k} |-> IF x = k THEN v ELSE f[x]]
 
-Init == l = 1 /\ conn = Fresh /\ cfg = Cfg0
+Init == l = 1 /\ conn = Fresh /\ cfg = Cfg0 /\ store = NoStore /\ conf = NoStore
 
-Upd(c, n) == ~Bad(n) /\ conn' = [conn EXCEPT ![c] = n] /\ UNCHANGED cfg
+Upd(c, n) == ~Bad(n) /\ conn' = [conn EXCEPT ![c] = n] /\ UNCHANGED <<cfg, store, conf>>
+UpdC(c, n) == ~Bad(n) /\ conn' = [conn EXCEPT ![c] = n] /\ UNCHANGED cfg
+
+(* C12 / C18: the reply to a data command and the keyspace after it, against RedisModel.tla *)
+RECURSIVE ConfSet(_, _, _)
+ConfSet(f, ts, i) == IF i + 1 > Len(ts) THEN f ELSE ConfSet(PutF(f, ts[i].b, ts[i + 1].b), ts, i + 2)
+ConfGetOK(ts, v) == /\ v.t = "arr" /\ Len(v.e) = 2 * Len(ts)
+                    /\ \A i \in 1..Len(ts) : /\ v.e[2 * i - 1] = Bulk(ts[i].b)
+                                             /\ (ts[i].b \in DOMAIN conf => v.e[2 * i] = Bulk(conf[ts[i].b]))
+
+ModelStep(cs, v) ==
+  LET r == cs.reqs[cs.nrep + 1]
+      x == ReqExpect(cs, r, cfg) IN
+  IF ~r.frame /\ r.name = "CONFIG" /\ cs.auth /\ Len(r.args) >= 2 /\ r.args[1].k = "word" /\ ~AnyNull(r.args) THEN
+    (IF r.args[1].w = "SET" /\ Len(r.args) % 2 = 1
+       THEN v = OKV /\ conf' = ConfSet(conf, Tail(r.args), 1) /\ UNCHANGED store
+     ELSE IF r.args[1].w = "GET" THEN ConfGetOK(Tail(r.args), v) /\ UNCHANGED <<store, conf>>
+     ELSE UNCHANGED <<store, conf>>)
+  ELSE IF r.frame \/ x.kind \notin {"calls", "derived"} THEN UNCHANGED <<store, conf>>
+  ELSE LET m == RM!Exec(KS(cs.db), r.name, r.args) IN
+    /\ UNCHANGED conf
+    /\ IF m.cmp = "any" THEN PrintT(<<"UNMODELLED", r.name>>) /\ UNCHANGED store
+       ELSE IF RM!IsErrRes(m) THEN v.t = "err" /\ UNCHANGED store
+       ELSE RM!ReplyMatches(m, v) /\ store' = PutF(store, cs.db, m.ks)
+
+\* the reference store's own contents after the requests delivered so far
+EntryOf(k) == CASE k.ty = "string" -> [ty |-> "string", v |-> k.v]
+                [] k.ty = "hash" -> [ty |-> "hash", h |-> {<<k.h[i][1], k.h[i][2]>> : i \in 1..Len(k.h)}]
+                [] k.ty = "list" -> [ty |-> "list", l |-> k.l]
+                [] k.ty = "set" -> [ty |-> "set", s |-> {k.s[i] : i \in 1..Len(k.s)}]
+                [] k.ty = "zset" -> [ty |-> "zset", z |-> {[m |-> k.z[i].m, s |-> k.z[i].s] : i \in 1..Len(k.z)}]
+DumpKS(keys) == [kk \in {keys[i].k : i \in 1..Len(keys)} |-> EntryOf(keys[CHOOSE i \in 1..Len(keys) : keys[i].k = kk])]
+StoreDumpOK(e) ==
+  /\ \A i \in 1..Len(e.dbs) : DumpKS(e.dbs[i].keys) = KS(e.dbs[i].db)
+  /\ \A d \in DOMAIN store : store[d] # RM!EmptyKS => \E i \in 1..Len(e.dbs) : e.dbs[i].db = d
 
 Handle(e) ==
   CASE e.ev = "scenario" ->
          /\ cfg' = [requirepass |-> e.requirepass, pw |-> e.pw, authdouble |-> e.authdouble,
-                    custom |-> IF e.customexec THEN {"MYCMD"} ELSE {}, tracer |-> e.tracer, rec |-> e.handler = "rec"]
-         /\ conn' = Fresh
-    [] e.ev = "open"      -> ~conn[e.c].opened /\ conn' = [conn EXCEPT ![e.c] = NewConn(cfg.requirepass)] /\ UNCHANGED cfg
+                    custom |-> IF e.customexec THEN {"MYCMD"} ELSE {}, tracer |-> e.tracer, rec |-> e.handler = "rec", model |-> e.model]
+         /\ conn' = Fresh /\ store' = NoStore /\ conf' = NoStore
+    [] e.ev = "open"      -> ~conn[e.c].opened /\ conn' = [conn EXCEPT ![e.c] = NewConn(cfg.requirepass)] /\ UNCHANGED <<cfg, store, conf>>
     [] e.ev = "reqs"      -> Upd(e.c, OnReqs(conn[e.c], e.reqs, e.ends))
     [] e.ev = "send"      -> Upd(e.c, OnSend(conn[e.c], e.upto, e.complete))
     [] e.ev = "halfclose" -> Upd(e.c, OnEos(conn[e.c], "half"))
     [] e.ev = "fullclose" -> Upd(e.c, OnEos(conn[e.c], "full"))
-    [] e.ev = "wfail"     -> UNCHANGED <<conn, cfg>>
+    [] e.ev = "wfail"     -> UNCHANGED <<conn, cfg, store, conf>>
+    [] e.ev = "store"     -> (cfg.model => StoreDumpOK(e)) /\ UNCHANGED <<conn, cfg, store, conf>>
     [] e.ev = "block"     -> Upd(e.c, OnBlock(conn[e.c]))
     [] e.ev = "call"      -> Upd(e.c, OnCall(conn[e.c], e))
     [] e.ev = "callret"   -> Upd(e.c, OnCallRet(conn[e.c], e))
-    [] e.ev = "write"     -> /\ (cfg.tracer => SpanReplyOK(conn[e.c]))
-                             /\ Upd(e.c, OnWrite(conn[e.c], e.b, e.failed, cfg))
+    [] e.ev = "write"     -> LET cs == conn[e.c]
+                                 n == OnWrite(cs, e.b, e.failed, cfg) IN
+                             /\ (cfg.tracer => SpanReplyOK(cs))
+                             /\ UpdC(e.c, n)
+                             /\ IF cfg.model /\ ~e.failed /\ n.nrep = cs.nrep + 1
+                                THEN ModelStep(cs, Dec(cs.wbuf \o e.b, 1).v)
+                                ELSE UNCHANGED <<store, conf>>
     [] e.ev = "close"     -> Upd(e.c, OnClose(conn[e.c]))
     [] e.ev = "return"    -> Upd(e.c, OnReturn(conn[e.c], e))
     [] e.ev = "span"      -> IF e.op = "start" THEN Upd(e.c, OnSpanStart(conn[e.c], e))
@@ -54,14 +100,14 @@ Step == /\ l <= Len(Trace) /\ Trace[l].ev # "end"
 End == /\ l <= Len(Trace) /\ Trace[l].ev = "end"
        /\ EndOK
        /\ PrintT(<<"OK", Trace[l].sc>>)
-       /\ l' = l + 1 /\ conn' = Fresh /\ cfg' = Cfg0
+       /\ l' = l + 1 /\ conn' = Fresh /\ cfg' = Cfg0 /\ store' = NoStore /\ conf' = NoStore
 
 GiveUp == /\ ~Diagnose
           /\ l <= Len(Trace)
-          /\ l' = Trace[l].end + 1 /\ conn' = Fresh /\ cfg' = Cfg0
+          /\ l' = Trace[l].end + 1 /\ conn' = Fresh /\ cfg' = Cfg0 /\ store' = NoStore /\ conf' = NoStore
 
 DiagAt == Diagnose => PrintT(<<"AT", l>>)
 
 Next == Step \/ End \/ GiveUp
-Spec == Init /\ [][Next]_<<l, conn, cfg>>
+Spec == Init /\ [][Next]_<<l, conn, cfg, store, conf>>
 =============================================================================
